@@ -590,6 +590,13 @@ func genPay(r *rand.Rand) *payIn {
 	if r.Intn(3) == 0 {
 		p.Total = randAmt(r, pe)
 	}
+	big := r.Intn(8) == 0
+	rateAmt := func() amt {
+		if big { // a rate written with many digits, as rates of exchange are
+			return amt{1 + r.Int63n(10000000000), uint32(6 + r.Intn(4))}
+		}
+		return amt{1 + r.Int63n(3000000), uint32(2 + r.Intn(5))}
+	}
 	ncur := 1 + r.Intn(3)
 	others := []string{}
 	for len(others) < ncur-1 {
@@ -602,16 +609,15 @@ func genPay(r *rand.Rand) *payIn {
 		if r.Intn(10) == 0 {
 			continue // missing rate: error path
 		}
-		p.Rates = append(p.Rates, rateX{From: o, To: p.Currency, Amount: amt{1 + r.Int63n(3000000), uint32(2 + r.Intn(5))}})
+		p.Rates = append(p.Rates, rateX{From: o, To: p.Currency, Amount: rateAmt()})
 		if r.Intn(4) == 0 { // a second rate for the same pair: the first wins
-			p.Rates = append(p.Rates, rateX{From: o, To: p.Currency, Amount: amt{1 + r.Int63n(3000000), uint32(2 + r.Intn(5))}})
+			p.Rates = append(p.Rates, rateX{From: o, To: p.Currency, Amount: rateAmt()})
 		}
 		if r.Intn(4) == 0 {
 			p.Rates = append(p.Rates, rateX{From: p.Currency, To: o, Amount: amt{1 + r.Int63n(3000000), 4}})
 		}
 	}
 	nl := r.Intn(11)
-	big := r.Intn(8) == 0
 	for i := 0; i < nl; i++ {
 		l := lineIn{}
 		lc := p.Currency
